@@ -640,3 +640,47 @@ def lifter(F, P, within):
             g = h
         return term
     return lift
+
+
+def deep_bodies(F, f, depth=3):
+    """the bodies that make up f's behaviour: f, its closures / async blocks, and — transitively — the private free functions and private methods of the
+    same module it calls (a named `async fn` or helper extracted from it), with theirs"""
+    mod = '::'.join(f.id.split('::')[:2])
+    out, seen, work = [], set(), [(f, 0)]
+    while work:
+        g, d = work.pop()
+        if g.id in seen:
+            continue
+        seen.add(g.id)
+        for x in F.with_descendants(g):
+            if x.id not in {y.id for y in out}:
+                out.append(x)
+            if d >= depth:
+                continue
+            for _, t in x.calls():
+                c = F.callee_fn(t)
+                if c is None or c.id in seen or not c.id.startswith(mod):
+                    continue
+                if (c.vis or '').startswith('Public') and not (c.impl_of or {}).get('self_head'):
+                    continue
+                if c.impl_of and c.impl_of.get('trait'):
+                    continue
+                if c.kind in ('Fn', 'AssocFn') and not (c.vis or '').startswith('Public'):
+                    work.append((c, d + 1))
+    return out
+
+
+def future_bodies(F, P, g, operand, at):
+    """coroutine bodies a future-valued operand denotes: an async block built here, or a call to a local `async fn`"""
+    out = []
+    for r, _ in P.root(P.operand(g, operand, at=at), inline=False):
+        ru = P.unbound(r)
+        if ru[0] == 'agg' and P._agg_rv(ru)['adt'] == 'coroutine':
+            b = F.fns.get(P._agg_rv(ru)['adt_id'])
+            if b is not None:
+                out.append(b)
+        elif ru[0] == 'call':
+            c = F.callee_fn(P.call_term(ru))
+            if c is not None:
+                out += [b for b in F.with_descendants(c) if b.coroutine and b.id != c.id] or ([c] if c.coroutine else [])
+    return out
